@@ -53,8 +53,34 @@ def gen_case(rng, i):
     return nodes, edges
 
 
+def gen_big_case(rng, i):
+    """9-11 nodes and 2-5 edges whose SIZES contain a pair (a, a+8) (or, in a third of the cases, 9-10 small edges through
+    one hub node, so that DEGREES 9 / 10 occur next to 1 / 2) — e.g. a singleton and a 9-member edge: small ints
+    that collide in an 8-slot hash table, so that anything which iterates over a set / dict of sizes (or degrees up to
+    5) in table order instead of sorting depends on which edge was inserted first.  (Found by the mutation sweep:
+    unique_edge_sizes with sorted() dropped is order dependent only from edge size 9 on.)"""
+    k = rng.choice([9, 10, 11])
+    lab = [lambda k: list(range(k)), lambda k: [3 * j + 2 for j in range(k)], lambda k: ["v%d" % j for j in range(k)],
+           lambda k: list(range(1, k + 1))][(i // 12) % 4](k)
+    rng.shuffle(lab)
+    if rng.random() < 0.35:
+        # the same for DEGREES: a hub in 9-10 small edges (degree 9 / 10 next to degrees 1 / 2)
+        m = rng.choice([9, 10])
+        eid = EDGE_IDS[(i // 12) % len(EDGE_IDS)](m)
+        hub, rest = lab[0], lab[1:]
+        edges = [(eid[j], [hub] + rng.sample(rest, rng.choice([1, 1, 2]))) for j in range(m)]
+        rng.shuffle(edges)
+        return lab, edges
+    a = rng.choice([s for s in (1, 2, 3) if s + 8 <= k])
+    sizes = [a, a + 8] + [rng.choice([1, 2, 3, 4, 8, 9]) for _ in range(rng.randint(0, 3))]
+    rng.shuffle(sizes)
+    eid = EDGE_IDS[(i // 12) % len(EDGE_IDS)](len(sizes))
+    return lab, [(eid[j], rng.sample(lab, min(k, sz))) for j, sz in enumerate(sizes)]
+
+
 WEIGHTS = [1, 2, 3, 0.5, 2.5]
 MASSES = [1, 2, 5]
+BIG_EVERY = 12          # every 12th generated case is a gen_big_case
 
 
 def gen_attrs(rng, nodes, edges):
@@ -68,7 +94,7 @@ def gen_attrs(rng, nodes, edges):
 
 
 def mk_case(rng, i):
-    nodes, edges = gen_case(rng, i)
+    nodes, edges = gen_big_case(rng, i) if i % BIG_EVERY == 5 else gen_case(rng, i)
     nattr, eattr = gen_attrs(rng, nodes, edges)
     return {"nodes": [enc_id(n) for n in nodes], "edges": [[enc_id(e), [enc_id(x) for x in ms]] for e, ms in edges],
             "nattr": nattr, "eattr": eattr}
@@ -177,15 +203,38 @@ def differs(case, var, label):
     return f"{label}: original vs {var['relabel']}-relabelled/reordered (mapped back): " + CM.first_diff(a, b, tol)
 
 
-def shrink(case, var, label, budget=150):
-    """greedy: drop edges, unused nodes, single members (from both networks) while the difference persists"""
+def hangs(case, label):
+    """does measure `label` give no answer on the original within the CPU budget?  returns detail or None"""
+    H = build_orig(case)
+    a = CM.evaluate(H, {n: n for n in H.nodes}, {e: e for e in H.edges}, labels={label}).get(label)
+    if a == CM.NO_ANSWER:
+        return (f"{label}: no answer within {CM.GUARD['s'] * (5 if CM.GUARD['retry'] else 1):g} s of CPU time on a network of "
+                f"{len(case['nodes'])} nodes / {len(case['edges'])} edges")
+    return None
+
+
+def forced(f, *args, quick=False):
+    """run f under the guard settings of the shrinker / replay: dead measures are evaluated again; `quick` = a quarter of
+    the budget and no second attempt"""
+    old = dict(CM.GUARD)
+    CM.GUARD.update({"force": True}, **({"s": 0.5, "retry": False} if quick else {}))
+    try:
+        return f(*args)
+    finally:
+        CM.GUARD.update(old)
+
+
+def shrink(case, var, label, budget=150, still=None):
+    """greedy: drop edges, unused nodes, single members (from both networks) while the difference persists (or, with
+    `still`, while still(case, var) holds); runs under the quick guard settings"""
     case, var = copy.deepcopy(case), copy.deepcopy(var)
+    still = still or (lambda c, v: differs(c, v, label) is not None)
 
     def ok(c, v):
         nonlocal budget
         budget -= 1
         try:
-            return differs(c, v, label) is not None
+            return forced(still, c, v, quick=True)
         except Exception:  # noqa
             return False
 
@@ -268,6 +317,7 @@ def model_values(resp):
     nd = lambda key, f=lambda x: x: (CM.ND, _pairs_dict(resp[key], f))
     out["nodes.degree"] = nd("degree")
     out["edges.size"] = (CM.ED, _pairs_dict(resp["size"]))
+    out["unique_edge_sizes"] = ('x', list(resp["unique_edge_sizes"]))
     out["nodes.neighbors"] = (('dict', 'n', ('set', 'n')), _pairs_dict(resp["neighbors"], lambda l: [dec_id(x) for x in l]))
     out["nodes.average_neighbor_degree"] = nd("average_neighbor_degree", _rat)
     out["clustering_coefficient"] = nd("clustering_coefficient", _rat)
@@ -309,7 +359,7 @@ def _captured_pairs(H):
     try:
         try:
             CM._quiet(lambda G: xgi.degree_assortativity(G, kind="uniform", exact=True))(H)
-        except Exception:  # noqa
+        except (Exception, CM.NoAnswer):  # noqa
             pass
     finally:
         np.corrcoef = orig
@@ -324,25 +374,29 @@ def _captured_pairs(H):
 def impl_for_model(H, base):
     """the implementation's values for the keys of model_values (raw, label-keyed)"""
     out = {}
-    for lab in ("nodes.degree", "edges.size", "nodes.neighbors", "nodes.average_neighbor_degree", "clustering_coefficient",
+    for lab in ("nodes.degree", "edges.size", "unique_edge_sizes", "nodes.neighbors", "nodes.average_neighbor_degree", "clustering_coefficient",
                 "local_clustering_coefficient", "two_node_clustering_coefficient:union", "two_node_clustering_coefficient:min",
                 "two_node_clustering_coefficient:max", "connected_components", "number_connected_components", "is_connected",
                 "node_connected_component", "shortest_path_length", "edges.maximal", "edges.maximal(strict)"):
-        out[lab] = base[lab]
+        out[lab] = base.get(lab, CM.NO_ANSWER)
     for i in range(len(CM.DENS_GRID)):
-        out[f"density:{i}"] = base[f"density:{i}"]
-        out[f"incidence_density:{i}"] = base[f"incidence_density:{i}"]
-    d = base["edges.duplicates (classes)"]
+        out[f"density:{i}"] = base.get(f"density:{i}", CM.NO_ANSWER)
+        out[f"incidence_density:{i}"] = base.get(f"incidence_density:{i}", CM.NO_ANSWER)
+    d = base.get("edges.duplicates (classes)", CM.NO_ANSWER)
     out["duplicates"] = d[2] if isinstance(d, tuple) and d and d[0] != "$err" else d
     idn, ide = {n: n for n in H.nodes}, {e: e for e in H.edges}
     try:
-        out["duplicates_exact"] = CM.norm(('set', 'e'), set(H.edges.duplicates()), idn, ide)
+        out["duplicates_exact"] = CM.norm(('set', 'e'), CM._quiet(lambda G: set(G.edges.duplicates()))(H), idn, ide)
+    except CM.NoAnswer:
+        out["duplicates_exact"] = CM.NO_ANSWER
     except Exception as ex:  # noqa
         out["duplicates_exact"] = ("$err", type(ex).__name__)
 
     def ev(shape, f):
         try:
             return CM.norm(shape, CM._quiet(f)(H), idn, ide)
+        except CM.NoAnswer:
+            return CM.NO_ANSWER
         except Exception as ex:  # noqa
             return ("$err", type(ex).__name__)
     for i, (o, s, w) in enumerate(CM.MAT_GRID):
@@ -438,6 +492,8 @@ def metamorphic(ctx, case, base, H, labels=None, first_seen=None):
             ctx.stats["variant:" + relabel] += 1
             for label, b in res.items():
                 site, _, shape, tol, flags, _ = CM.BY_LABEL[label]
+                if label not in base:
+                    continue
                 a = base[label]
                 if CM.same(a, b, tol):
                     continue
@@ -450,8 +506,9 @@ def metamorphic(ctx, case, base, H, labels=None, first_seen=None):
                 c, v = case, var
                 if first_seen is not None and (site, cls) not in first_seen:
                     first_seen.add((site, cls))
-                    c, v = shrink(case, var, label)
-                    detail = differs(c, v, label) or detail
+                    c, v = shrink(case, var, label, budget=40 if CM.NO_ANSWER in (a, b) else 150)
+                    d2 = forced(differs, c, v, label)       # the shrunk pair must still differ under the full budget
+                    c, v, detail = (c, v, d2) if d2 else (case, var, detail)
                 ctx.violation(site, cls, {"measure": label, "original": c, "variant": v, "relabelled": variant_net(v, c)}, detail=detail)
                 ctx.stats["violation:" + site] += 1
 
@@ -464,6 +521,18 @@ def run_cases(ctx, cases, model=True, meta=True, labels=None, first_seen=None, d
         nodes = [dec_id(n) for n in case["nodes"]]
         base = CM.evaluate(H, idn, ide, labels=labels, skip_flags=base_skip_flags(case))
         ctx.evaluations += len(base)
+        for lab, val in base.items():
+            if val == CM.NO_ANSWER:          # never "the same exception on both sides": the measure did not return
+                site, cls, c = CM.BY_LABEL[lab][0], "no-answer-within-cpu-budget", case
+                detail = f"{lab}: no answer within {5 * CM.GUARD['s']:g} s of CPU time on a network of {len(case['nodes'])} nodes / {len(case['edges'])} edges"
+                if first_seen is not None and (site, cls) not in first_seen:
+                    first_seen.add((site, cls))
+                    c, _ = shrink(case, make_variant(ctx.rng, nodes, [(dec_id(e), [dec_id(x) for x in ms]) for e, ms in case["edges"]], "id", True),
+                                  lab, budget=40, still=lambda cc, vv: hangs(cc, lab) is not None)
+                    d2 = forced(hangs, c, lab)
+                    c, detail = (c, d2) if d2 else (case, detail)
+                ctx.violation(site, cls, {"measure": lab, "original": c}, detail=detail)
+                ctx.stats["violation:" + site] += 1
         comp = ctx.extra.setdefault("_completion", {})
         for lab, val in base.items():
             rec = comp.setdefault(lab, [0, 0, Counter()])
@@ -523,7 +592,7 @@ def completion_report(ctx):
     comp = ctx.extra.pop("_completion", {})
     always, table = [], {}
     for lab, (done, total, errs) in sorted(comp.items()):
-        if total and done == 0:
+        if total and done == 0 and set(errs) != {"no-answer"}:     # a measure that never returned is reported concretely above
             always.append({"measure": lab, "site": CM.BY_LABEL[lab][0], "evaluations": total, "exceptions": dict(errs)})
         if total and done * 4 < total:
             table[lab] = {"completed": done, "of": total, "exceptions": dict(errs)}
@@ -540,7 +609,8 @@ def completion_report(ctx):
 
 def run(ctx):
     ok = build_and_audit(ctx, "XgiModel.Props.C09", ["XgiModel.C09.Drive"])
-    ctx.rule = ("small hypergraphs (<=7 nodes, <=7 edges, sizes 1-4, isolated nodes, multi-edges, uniform ones) from one PRNG, 85 % of them with "
+    ctx.rule = ("small hypergraphs (<=7 nodes, <=7 edges, sizes 1-4, isolated nodes, multi-edges, uniform ones; every 12th one with 9-11 nodes and edge "
+                "sizes containing a pair a, a+8 such as 1 and 9) from one PRNG, 85 % of them with "
                 "an edge attribute 'weight' (on ~75 % of the edges, values 1/2/3/0.5/2.5) and a node attribute 'mass'; edge-ID "
                 "schemes cycled over identity / reversed and rotated permutations of 0..m-1 / gapped ints / strings / mixed, node labels over "
                 "ints / gapped / negative / strings / mixed; each case is re-inserted twice under the identity labelling and under three "
@@ -599,7 +669,14 @@ def run(ctx):
 def replay(ctx, path):
     j = json.load(open(path))
     c = j.get("case", j)
-    case, var, label = c["original"], c["variant"], c["measure"]
+    case, label = c["original"], c["measure"]
+    CM.GUARD["force"] = True
+    if "variant" not in c:                      # failure class no-answer-within-cpu-budget: the measure did not return
+        d = hangs(case, label)
+        print(f"original: nodes={case['nodes']} edges={case['edges']}")
+        print(("STILL NO ANSWER: " + d) if d else f"{label}: returned")
+        return 1 if d else 0
+    var = c["variant"]
     d = differs(case, var, label)
     print(f"original: nodes={case['nodes']} edges={case['edges']}")
     print(f"relabelled/reordered: {variant_net(var, case)}")
